@@ -18,7 +18,13 @@ oracle: the property itself on the real code, without the model
     chromosomes are partly missing from earlier-listed files} x {matrix, linear, both} with reads that
     have no group, groups missing from a chromosome, 1-2 threads, two hash seeds; table mode with read ids that start
     with '#', groups that end with a blank and the empty group; --yaml with integer labels; one run with blank-padded
-    BAM tag values killed after a `_collected` lock and resumed (check_resume_run).
+    BAM tag values killed after a `_collected` lock and resumed (check_resume_run);
+  * audit-2 B (props/C09_options.py): `file:FILE:READ_COL:GROUP_COL:DELIM` in every documented spelling (fields omitted or
+    left empty, `:` as delimiter) through the real prepare_read_groups / create_read_grouper on BAM files whose headers differ
+    and a reference sequence that no header lists; `read_id:DELIM` with delimiters that are / contain a colon; pipeline modes
+    `file3` (file:T:2), `filesub` (FASTA sequence absent from the BAM header), `read_id::`; the renderings written are those
+    --counts_format asks for, for gene, transcript and transcript-model tables; columns = documented groups also for the
+    transcript-model tables; a run restarted from its save files (--read_assignments): the universe of the `_info` file.
 """
 import json
 import os
@@ -30,13 +36,14 @@ from concurrent.futures import ThreadPoolExecutor
 import vlib
 from gen import groups as G
 from props import C09_growth as GR
+from props import C09_options as OP
 
 ID = "C09"
 PROPS = ["IsoVerif/Props/C09.lean", "IsoVerif/Props/C09Groupers.lean", "IsoVerif/Props/C09Tables.lean",
          "IsoVerif/Props/C09Profiles.lean", "IsoVerif/Props/C09Labels.lean", "IsoVerif/Props/C09Tpm.lean", "IsoVerif/Props/C09TablesChrom.lean",
-         "IsoVerif/Props/C09Files.lean"]
+         "IsoVerif/Props/C09Files.lean", "IsoVerif/Props/C09Options.lean", "IsoVerif/Props/C09Format.lean"]
 TARGETS = ["IsoVerif.Props.C09", "IsoVerif.Props.C09Groupers", "IsoVerif.Props.C09Tables", "IsoVerif.Props.C09Profiles",
-           "IsoVerif.Props.C09Labels", "IsoVerif.Props.C09Tpm", "IsoVerif.Props.C09TablesChrom", "IsoVerif.Props.C09Files"]
+           "IsoVerif.Props.C09Labels", "IsoVerif.Props.C09Tpm", "IsoVerif.Props.C09TablesChrom", "IsoVerif.Props.C09Files", "IsoVerif.Props.C09Options", "IsoVerif.Props.C09Format"]
 GEN_DEPS = ["Enums", "EventClasses", "Strategies", "ReadGroups", "CounterTables"]
 LEVEL = "proof"
 RULE = ("split/strip: exhaustive strings over {a,_,:} up to length 5 x 6 delimiters + random unicode; groupers: seeded call "
@@ -62,6 +69,15 @@ ASSUMPTIONS = ["group names, read ids and feature ids contain no tab / newline (
                "code with the candidate patches fix_D1 / fix_D2 / fix_D3 applied: on a tree without them the check reports "
                "VIOLATION with replays of the three defects (kinds wrong_group/split_table, file_label_not_string, "
                "groups_file_roundtrip, pipeline matrix_header / group_of_read / abort)",
+               "the model of the --read_group option string (Model/C09Options.lean, parseReadGroupL), of the tables of unlisted "
+               "reference sequences and the generated table of grouped counters describe the code with the candidate patches "
+               "fix_file_option_fields / fix_group_table_missing_contig / fix_read_id_colon_delimiter / "
+               "fix_counts_format_transcript_model (builder c09x): on a tree without them the check reports VIOLATION (kinds "
+               "abort + wrong_group / file_option + read_id_option, counts_format_ignored, pipeline matrix_header / abort)",
+               "column fields of the option string are ASCII in the correspondence (CPython's int() also accepts other Unicode "
+               "decimal digits: not modelled); FILE contains no colon; negative column numbers are not generated by the oracle",
+               "read_id: with the empty delimiter is an invalid configuration (ValueError), not an ungroupable read "
+               "(proposed DESIGN §6 sentence, docs/C09.md §10.6)",
                "files are opened with newline='\\n' on both ends (no translation): the text written is the text read; BAM "
                "read names contain no tab / newline"]
 
@@ -375,7 +391,7 @@ def grouper_cases(ctx):
             spec = {"kind": "tag", "tag": tag}
             alns = [G.alignment(rng, "tag", groups, tag=tag) for _ in range(rng.randint(1, 25))]
         elif mode == "read_id":
-            delim = rng.choice(["_", "=", "-", "__", "_a", ".", "ab"])
+            delim = rng.choice(["_", "=", "-", "__", "_a", ".", "ab", ":", "::", "a:"])
             spec = {"kind": "read_id", "delim": delim}
             alns = [G.alignment(rng, "read_id", groups, delim=delim) for _ in range(rng.randint(1, 25))]
         elif mode == "table":
@@ -547,8 +563,9 @@ def correspondence(ctx):
                 ctx.sample({"op": "run_grouper", "grouper": spec["kind"], "model": mo, "impl": io})
         # --- 3. create_read_grouper option parsing
         RG = _impl()
-        opts = [None, "file_name", "tag", "tag:CB", "tag:CB:x", "read_id:_", "read_id:__:x", "read_id", "read_id:",
-                "file:" + os.path.join(tmp, "t.tsv"), "file:" + os.path.join(tmp, "t.tsv") + ":0:1", "bogus", "", ":tag", "Tag:CB"]
+        opts = [None, "file_name", "tag", "tag:CB", "tag:CB:x", "read_id:_", "read_id:__:x", "read_id", "read_id:", "read_id::",
+                "read_id:a:b", "file:" + os.path.join(tmp, "t.tsv"), "file:" + os.path.join(tmp, "t.tsv") + ":0:1",
+                "file:" + os.path.join(tmp, "t.tsv") + ":2", "file:" + os.path.join(tmp, "t.tsv") + "::1:,", "bogus", "", ":tag", "Tag:CB"]
         with open(os.path.join(tmp, "rgf_chrZ"), "w") as f:
             f.write("r1\tg1\n")
         outs = drv.run([req("parse_read_group", opt=o) for o in opts])
@@ -613,6 +630,9 @@ def correspondence(ctx):
                 ctx.mark_nontrivial(["profile_counter", c])
         # --- 5c. growth: file labels, grouped TPM values, tables of several BAM files
         GR.correspondence(ctx, tmp)
+        # --- 5d. option strings: file:FILE:READ_COL:GROUP_COL:DELIM field by field, read_id delimiters with colons, tables of
+        #         reference sequences that no BAM header lists (audit-2 B)
+        OP.correspondence(ctx, tmp)
     finally:
         shutil.rmtree(tmp, ignore_errors=True)
     # --- 6. counters under several hash seeds
@@ -949,6 +969,8 @@ def oracle(ctx, disagreements, broken):
                                      "dumped tables differ between PYTHONHASHSEED=%s and %s" % (first[0], hs))
         # 3b. growth: labels -> groups, grouped TPM values, per-chromosome tables
         n += GR.oracle(ctx, disagreements, tmp)
+        # 3c. option strings through prepare_read_groups / create_read_grouper
+        n += OP.oracle(ctx, disagreements, tmp)
         # 4. the real pipeline
         n += oracle_pipeline(ctx, broken)
     finally:
@@ -996,7 +1018,7 @@ def build_dataset(ds_seed, mode, d):
         paths = ds.write(d)
         bams = [paths["bam"]]
     elif kind == "read_id":
-        delim = mode.split(":")[1]
+        delim = mode[len("read_id:"):]              # everything after the first colon: the delimiter may be ':' itself
         for r in ds.reads:
             base = r["name"].replace("_", "-") if delim != "_" else r["name"]
             if rng.random() < 0.2:
@@ -1037,6 +1059,40 @@ def build_dataset(ds_seed, mode, d):
         paths = ds.write(d)
         bams = [paths["bam"]]
         mode = "file:" + tab
+    elif kind in ("file3", "filesub"):
+        tab = os.path.join(d, "groups.tsv")
+        if kind == "file3":
+            # `file:FILE:READ_COL` (three fields, docs/cmd.md: "GROUP_COL ... 1 if not set"): columns x, group, read id
+            tmpl, rc, gc, suffix = "x\t%(g)s\t%(r)s", 2, 1, ":2"
+        else:
+            tmpl, rc, gc, suffix = "%(r)s\t%(g)s", 0, 1, ""
+        lines = ["# table of read groups"]
+        for r in ds.reads:
+            if rng.random() >= 0.2:
+                lines.append(tmpl % {"r": r["name"], "g": pick(r)})
+        lines.append(tmpl % {"r": "not_a_read", "g": "ghost"})
+        with open(tab, "w") as f:
+            f.write("".join(l + "\n" for l in lines))
+        tdoc = GR.doc_table_map(lines, "\t", rc, gc)
+        paths = ds.write(d)
+        bams = [paths["bam"]]
+        if kind == "filesub":
+            # the BAM file was aligned to / subset to chr1 only: its header does not list chr2, the reference FASTA has both
+            # (legal since fix 3cddb34); the reads of chr2 are not in the file
+            import pysam
+            sub = os.path.join(d, "chr1_only.bam")
+            hdr = {"HD": {"VN": "1.6", "SO": "coordinate"}, "SQ": [{"SN": "chr1", "LN": len(ds.chroms["chr1"])}]}
+            kept = set()
+            with pysam.AlignmentFile(paths["bam"]) as inp, pysam.AlignmentFile(sub, "wb", header=hdr) as out_:
+                for a in inp.fetch("chr1"):
+                    out_.write(pysam.AlignedSegment.from_dict(a.to_dict(), out_.header))
+                    kept.add(a.query_name)
+            pysam.index(sub)
+            bams = [sub]
+            doc = {nm: tdoc.get(nm, "NA") for nm in kept}
+        else:
+            doc = {r["name"]: tdoc.get(r["name"], "NA") for r in ds.reads}
+        mode = "file:" + tab + suffix
     elif kind == "filecsv":
         # file:FILE:READ_COL:GROUP_COL:DELIM with swapped columns and a comma: group names that contain blanks, END with a
         # blank, the empty group; read ids that start with '#' (a legal first character of a BAM read name)
@@ -1116,9 +1172,26 @@ def build_dataset(ds_seed, mode, d):
     return args, doc
 
 
+def _read_table(path):
+    """tsv count table -> {feature: [values...]}, header list (cells of LINE 0 only, without the leading '#'), stats.
+    Only the first line is a header: a feature id may itself start with '#' (fixes 1c8d7fc / ffabc7a), such a line is a row."""
+    rows, stats, header = {}, {}, None
+    with open(path) as f:
+        for i, l in enumerate(f):
+            l = l.rstrip("\n")
+            if i == 0 and l.startswith("#"):
+                header = l[1:].split("\t")
+                continue
+            p = l.split("\t")
+            if p[0].startswith("__"):
+                stats[p[0]] = p[1:]
+            else:
+                rows[p[0]] = p[1:]
+    return rows, header, stats
+
+
 def triples_of_matrix(path):
-    import pipeline as P
-    rows, header, _ = P.read_table(path)
+    rows, header, _ = _read_table(path)
     if header is None:
         return None, None
     groups = header[1:]
@@ -1168,33 +1241,43 @@ def check_pipeline_run(cfg):
         universe = sorted(set(doc.values()))
         summary = {}
         for level in ("transcript", "gene", "transcript_model"):
-            fmt = cfg["fmt"] if level != "transcript_model" else "both"     # the transcript-model counter always writes both
+            fmt = cfg["fmt"]
             mpath = files.get("S.%s_grouped_counts.tsv" % level)
             lpath = files.get("S.%s_grouped_counts_linear.tsv" % level)
             upath = files.get("S.%s_counts.tsv" % level)
             mt = lt = groups = None
+            # --counts_format: "matrix" / "linear" / "both" (docs/cmd.md) - the renderings written are the requested ones,
+            # for every grouped table (the TPM table is derived from the matrix: "linear ... (no TPM output)")
+            # (the counters create all three files; a rendering that was not requested stays an empty file)
+            has_table = lambda p_: p_ is not None and os.path.getsize(p_) > 0
+            written = {"matrix": has_table(mpath), "linear": has_table(lpath),
+                       "tpm": has_table(files.get("S.%s_grouped_tpm.tsv" % level))}
+            wanted = {"matrix": fmt in ("matrix", "both"), "linear": fmt in ("linear", "both"), "tpm": fmt in ("matrix", "both")}
+            if written != wanted and (written["matrix"] or written["linear"]):
+                res.append(("counts_format_ignored", "%s: --counts_format %s, grouped files written: %s" %
+                            (level, fmt, sorted(k for k, v in written.items() if v))))
             if fmt in ("matrix", "both"):
                 mt, groups = triples_of_matrix(mpath)
                 if mt is None:
                     res.append(("matrix_missing", "%s: no matrix table" % level))
                     continue
-                if level != "transcript_model" and sorted(groups) != universe:
+                if sorted(groups) != universe:
                     res.append(("matrix_header", "%s: columns %s, documented groups %s" % (level, groups, universe)))
                 tpath = files.get("S.%s_grouped_tpm.tsv" % level)
                 if tpath:
-                    _, th, _ = P.read_table(tpath)
+                    _, th, _ = _read_table(tpath)
                     if th is not None and th[1:] != groups:
                         res.append(("tpm_header_mislabelled", "%s: grouped TPM columns %s, count columns %s" % (level, th[1:], groups)))
                     if th is not None:
-                        crows, _, _ = P.read_table(mpath)
-                        trows, _, _ = P.read_table(tpath)
+                        crows, _, _ = _read_table(mpath)
+                        trows, _, _ = _read_table(tpath)
                         for kind, det in GR.check_tpm_tables(crows, trows, len(groups)):
                             res.append((kind, "%s: %s" % (level, det)))
                 if "NA" not in groups and ungroupable:
                     res.append(("ungroupable_not_NA", "%s: %d reads without a group but no NA column" % (level, len(ungroupable))))
                 # partition against the ungrouped table
-                urows, _, _ = P.read_table(upath)
-                grows, _, _ = P.read_table(mpath)
+                urows, _, _ = _read_table(upath)
+                grows, _, _ = _read_table(mpath)
                 for f, vals in grows.items():
                     if f in urows and abs(sum(map(float, vals)) - float(urows[f][0])) > 0.005 * (len(vals) + 1) + EPS:
                         res.append(("partition", "%s %s: groups sum to %s, ungrouped %s" % (level, f, sum(map(float, vals)), urows[f][0])))
@@ -1252,7 +1335,7 @@ def _check_group_of_read(files, doc, summary):
             g = doc.get(r["read_id"])
             per[(r["isoform_id"], g)] = per.get((r["isoform_id"], g), 0) + 1
             tot[r["isoform_id"]] = tot.get(r["isoform_id"], 0) + 1
-    urows, _, _ = P.read_table(files["S.transcript_counts.tsv"])
+    urows, _, _ = _read_table(files["S.transcript_counts.tsv"])
     ok_feats = {f for f, v in urows.items() if abs(float(v[0]) - tot.get(f, 0)) < EPS and float(v[0]) > 0}
     for which in ("matrix", "linear"):
         t = (summary.get("transcript") or {}).get(which)
@@ -1278,7 +1361,7 @@ def _check_group_of_read(files, doc, summary):
         for tid in tids:
             per[(tid, doc.get(rid))] = per.get((tid, doc.get(rid)), 0) + 1.0 / len(tids)
             tot[tid] = tot.get(tid, 0) + 1.0 / len(tids)
-    urows, _, _ = P.read_table(files["S.transcript_model_counts.tsv"])
+    urows, _, _ = _read_table(files["S.transcript_model_counts.tsv"])
     ok_feats = {f for f, v in urows.items() if abs(float(v[0]) - tot.get(f, 0)) < PRINT_TOL and float(v[0]) > 0}
     for which in ("matrix", "linear"):
         t = (summary.get("transcript_model") or {}).get(which)
@@ -1364,7 +1447,7 @@ def check_resume_run(cfg):
                 res.append(("abort", "run killed after mutation %d (a _collected lock), --resume exited with %s: %s" % (k, rc2, tail), li))
                 continue
             got = grouped(os.path.join(wd, "out"))
-            _, hdr, _ = P.read_table(os.path.join(wd, "out", "S", "S.transcript_grouped_counts.tsv"))
+            _, hdr, _ = _read_table(os.path.join(wd, "out", "S", "S.transcript_grouped_counts.tsv"))
             if hdr is not None and sorted(hdr[1:]) != universe:
                 res.append(("matrix_header", "run killed after mutation %d (a _collected lock) and resumed: columns %s, documented "
                             "groups %s" % (k, hdr[1:], universe), li))
@@ -1372,6 +1455,69 @@ def check_resume_run(cfg):
                 bad = sorted(f for f in set(got) | set(clean) if got.get(f) != clean.get(f))
                 res.append(("resume_grouped_tables_differ", "run killed after mutation %d and resumed: %s differ from the "
                             "uninterrupted run" % (k, bad), li))
+        return res
+    finally:
+        shutil.rmtree(base, ignore_errors=True)
+
+
+def check_restart_run(cfg):
+    """the group universe through the `<save>_info` file (the third anchor of the property: src/dataset_processor.py
+    collect_reads writes it, load_read_info reads it back): a run with `--read_group tag:CB --keep_tmp`, then a second run
+    restarted from its save files with `--read_assignments <save> --read_group tag:CB` (no BAM file: the universe of the
+    second run comes from `<save>_info` alone).  The restarted run must finish, its columns must be the documented groups
+    and every grouped table must equal the table of the first run.  Groups: one that occurs on chr2 only, reads without
+    the tag (NA), a name containing `count`, names that differ in case.  Returns list of (kind, detail)."""
+    import random
+    import pipeline as P
+    from gen import synth
+    base = P.scratch("isoverif_c09s_")
+    try:
+        rng = random.Random(cfg["ds_seed"])
+        ds = synth.simple_dataset(seed=cfg["ds_seed"], n_chroms=2, genes_per_chrom=2, reads_per_tx=rng.randint(3, 5))
+        vals = ["cellA", "count_B", "b", "B"]
+        doc = {}
+        for i, r in enumerate(ds.reads):
+            if i % 5 == 0:
+                doc[r["name"]] = "NA"
+                continue
+            g = "zz_chr2_only" if (r["chr"] == "chr2" and i % 4 == 1) else vals[rng.randrange(len(vals))]
+            r["tags"] = [("CB", g, "Z")]
+            doc[r["name"]] = g
+        universe = sorted(set(doc.values()))
+        paths = ds.write(os.path.join(base, "data"))
+        common = ["--reference", paths["ref"], "--data_type", "nanopore", "-p", "S", "--no_gzip", "--genedb", paths["gtf"],
+                  "--complete_genedb", "--read_group", "tag:CB", "--counts_format", cfg["fmt"]]
+        out1 = os.path.join(base, "out1")
+        rc, log = P.run_isoquant(out1, ["--threads", str(cfg["threads"]), "--bam", paths["bam"], "--keep_tmp"] + common,
+                                 env={"PYTHONHASHSEED": cfg["hashseed"]}, timeout=900)
+        if rc != 0:
+            return [("abort", "first run (--keep_tmp) exited with %s: %s" % (rc, log.strip().split("\n")[-1:]))]
+        save = os.path.join(out1, "S", "aux", "S.save")
+        out2 = os.path.join(base, "out2")
+        rc, log = P.run_isoquant(out2, ["--threads", str(3 - cfg["threads"]), "--read_assignments", save] + common,
+                                 env={"PYTHONHASHSEED": str(int(cfg["hashseed"]) + 5)}, timeout=900)
+        if rc != 0:
+            tail = [l for l in log.strip().split("\n") if "Error" in l][-1:]
+            return [("abort", "run restarted with --read_assignments and --read_group tag:CB exited with %s: %s" % (rc, tail))]
+        first = {fn.split(".", 1)[1]: p_ for fn, p_ in P.out_files(out1, "S").items() if "grouped" in fn}
+        sub = [x for x in sorted(os.listdir(out2)) if os.path.isdir(os.path.join(out2, x))]
+        second = {}
+        for x in sub:
+            for fn in os.listdir(os.path.join(out2, x)):
+                if "grouped" in fn:
+                    second[fn.split(".", 1)[1]] = os.path.join(out2, x, fn)
+        res = []
+        if sorted(first) != sorted(second):
+            res.append(("restart_grouped_tables_differ", "grouped files of the first run %s, of the restarted run %s"
+                        % (sorted(first), sorted(second))))
+        for fn in sorted(set(first) & set(second)):
+            if fn.endswith("_grouped_counts.tsv"):
+                _, hdr, _ = _read_table(second[fn])
+                if hdr is not None and sorted(hdr[1:]) != universe:
+                    res.append(("matrix_header", "restarted run, %s: columns %s, documented groups %s" % (fn, hdr[1:], universe)))
+            a, b = open(first[fn]).read(), open(second[fn]).read()
+            if a != b:
+                res.append(("restart_grouped_tables_differ", "%s of the restarted run differs from the table of the first run" % fn))
         return res
     finally:
         shutil.rmtree(base, ignore_errors=True)
@@ -1385,8 +1531,10 @@ def pipeline_configs(ctx):
         for fmt in G.FORMATS:
             cfgs.append({"mode": m, "fmt": fmt, "threads": rng.choice([1, 2]), "hashseed": str(rng.choice([0, 1, 7, 42])),
                          "ds_seed": rng.randrange(10 ** 6), "exons": rng.random() < 0.35})
-    extra_modes = ["tag:HP", "read_id:_", "filecsv", "implicit", "file_name", "yaml_int", "read_id:--", "tag:RG"]
-    for m in (extra_modes[:6] if ctx.tier == "quick" else extra_modes * 4 + modes * 6):
+    # file3: `file:T:2` (three fields); filesub: a reference sequence absent from the BAM header; read_id:: the colon delimiter
+    extra_modes = ["tag:HP", "read_id:_", "filecsv", "implicit", "file_name", "yaml_int", "file3", "filesub", "read_id::", "read_id:--",
+                   "tag:RG"]
+    for m in (extra_modes[:9] if ctx.tier == "quick" else extra_modes * 4 + modes * 6):
         cfgs.append({"mode": m, "fmt": rng.choice(G.FORMATS), "threads": rng.choice([1, 2, 3]),
                      "hashseed": str(rng.randrange(1000)), "ds_seed": rng.randrange(10 ** 6), "exons": rng.random() < 0.35})
     return cfgs
@@ -1396,21 +1544,40 @@ def oracle_pipeline(ctx, broken):
     cfgs = pipeline_configs(ctx)
     results = []
     rcfg = {"ds_seed": ctx.rng.randrange(10 ** 6), "locks": [0, -1]}
+    scfg = {"ds_seed": ctx.rng.randrange(10 ** 6), "fmt": ctx.rng.choice(G.FORMATS), "threads": ctx.rng.choice([1, 2]),
+            "hashseed": str(ctx.rng.randrange(1000))}
     with ThreadPoolExecutor(max_workers=6) as ex:
         rfut = ex.submit(check_resume_run, rcfg)
+        sfut = ex.submit(check_restart_run, scfg)
         futs = [(c, ex.submit(check_pipeline_run, c)) for c in cfgs]
         for c, fu in futs:
             results.append((c, fu.result()))
         ctx.count("pipeline:kill_resume:tag")
         for kind, det, li in rfut.result():
             ctx.fail(kind, {"what": "pipeline_resume", "cfg": dict(rcfg, locks=[li] if li is not None else rcfg["locks"])}, det)
+        ctx.count("pipeline:restart_read_assignments:tag")
+        for kind, det in sfut.result():
+            ctx.fail(kind, {"what": "pipeline_restart", "cfg": scfg}, det)
     checked = 0
     for c, (res, summary) in results:
         ctx.count("pipeline:%s:%s" % (c["mode"].split(":")[0], c["fmt"]))
         if summary:
             checked += summary.get("group_of_read_features_checked", 0)
+        per_cfg = 0
         for kind, det in res:
+            # the replay file holds the first ten failures of a run: one `counts_format_ignored` per run and at most two
+            # failures per pipeline configuration are recorded, the others are counted
+            ctx.count("pipeline_failure:%s:%s" % (c["mode"].split(":")[0], kind))
+            if kind == "counts_format_ignored":
+                if ctx.extra.get("_fmt_recorded"):
+                    continue
+                ctx.extra["_fmt_recorded"] = True
+            elif per_cfg >= 2:
+                continue
+            else:
+                per_cfg += 1
             ctx.fail(kind, {"what": "pipeline", "cfg": c}, det)
+    ctx.extra.pop("_fmt_recorded", None)
     # the same data under a second hash seed / thread count must give the same grouped tables
     twins = cfgs[:4] if ctx.tier == "quick" else cfgs[:12]
     with ThreadPoolExecutor(max_workers=6) as ex:
@@ -1444,6 +1611,10 @@ def replay(ctx, failure):
     what = inp.get("what")
     if what in ("labels_cmd", "labels_yaml", "grouped_tpm", "split_table", "groups_file"):
         return GR.replay(ctx, failure)
+    if what in ("file_option", "read_id_option"):
+        return OP.replay(ctx, failure)
+    if what == "pipeline_restart":
+        return any(k == kind for k, _ in check_restart_run(inp["cfg"]))
     if what == "grouper":
         tmp = tempfile.mkdtemp(prefix="isoverif_c09r_")
         try:
